@@ -124,7 +124,9 @@ def deflate_cases(tier, seed):
 
 
 PATTERNS_OK = [("%0:2", 8), ("%1:3", 10), ("%3:4", 12), ("<3", 8), (">5", 8), ("<20", 8), ("%9:1", 12), ("%5:9", 30)]
-PATTERNS_2DIGIT = [("%10:3", 40), ("%12:4", 64), ("%10:10", 25)]
+PATTERNS_2DIGIT = [("%10:3", 40), ("%12:4", 64), ("%10:10", 25), ("%100:7", 130)]
+# malformed patterns: the repaired parser (fix: pmask_pattern ...) rejects them by precondition()
+PATTERNS_BAD = [("%5", 8), ("%3:0", 8), ("%2:-1", 8), ("%:", 8)]
 
 
 def vtok(s):
@@ -167,7 +169,7 @@ def run(ctx, cases_override=None):
                 f, _, _ = diff_run(ctx, "composite", [l]); fails += f
         return fails
     fails += run_schur(ctx, schur_cases(tier, seed))
-    fails += run_patterns(ctx, PATTERNS_OK + PATTERNS_2DIGIT)
+    fails += run_patterns(ctx, PATTERNS_OK + PATTERNS_2DIGIT + PATTERNS_BAD)
     fails += run_cpr(ctx, cpr_cases(tier, seed))
     fails += run_deflate(ctx, deflate_cases(tier, seed))
     return fails
@@ -230,6 +232,13 @@ def run_patterns(ctx, pats):
         ctx["stats"]["traces"] += 1
         if impl.startswith(("0", "1")): ctx["stats"]["nontrivial"] += 1
         # expected mask: start, start+stride, ... / first m / from m on
+        if (pat, n) in PATTERNS_BAD:
+            # both sides must refuse (precondition -> runtime_error); never hang, never return a mask
+            if not (impl.startswith("EXC runtime_error") and (model or "").startswith("EXC runtime_error")):
+                ctx["stats"]["mismatches"] += 1
+                fails.append(dict(kind="counterexample", case=line, impl=impl, model=model, op="schur_pattern", size=len(line),
+                                  theorem="C18: malformed pmask_pattern must be rejected by an exception (implementation vs model)"))
+            continue
         if pat[0] == "%":
             start, stride = [int(x) for x in pat[1:].split(":")]
             exp = "".join("1" if (i >= start and (i - start) % stride == 0) else "0" for i in range(n))
